@@ -27,19 +27,30 @@ from vlib import f2b, fs2b, b2f, b2fs
 from props import c01
 
 ID = "C18"
-GEN = ["LeavesAst", "Leaves"]
-RULE = ("every generated leaf kernel (Affine both signs, Loc, Scale, Exp, SoftPlus, Tanh, LeakyTanh, RationalQuadraticSpline with perturbed "
+GEN = ["LeavesAst", "Leaves", "DistAst", "VecAst"]
+RULE = ("[families] every family (Normal, LogNormal, Uniform, Gumbel, Cauchy, StudentT, Laplace, Exponential, Logistic and the eight standard bases) x "
+        "private `_log_prob` and public `log_prob` x trainable leaves far from their initial values (loc up to 1e3, raw scale/df from -20 to 40) x inputs on the "
+        "support ends, at loc (|.| at 0), outside the support, at magnitudes 1e3..1e300: value and d/dx, d/d(every trainable leaf) from the Float instance "
+        "of the generated ASTs vs jax.value_and_grad; [planar] dims 1-5, tanh and leaky-relu (both directions), pre-activation exactly 0 (dyadic data), "
+        "w = 0, magnitudes to 1e150: every output's value and Jacobian w.r.t. x, weight, act_scale, bias vs jax.jacrev; [mixture] 1-5 components, tied maxima, "
+        "-inf / +inf / NaN components; [networks] Coupling (both directions) and MaskedAutoregressive with the default affine transformer, relu and tanh "
+        "conditioners of depth 0-2 with perturbed weights, relu pre-activations exactly 0: value and Jacobian w.r.t. x and EVERY weight and bias; "
+        "[leaves] every generated leaf kernel (Affine both signs, Loc, Scale, Exp, SoftPlus, Tanh, LeakyTanh, RationalQuadraticSpline with perturbed "
         "parameters and intervals not containing 0) x all methods x boundary-directed inputs (interval ends, knots, outside the interval, at and "
         "beyond ±max_val, tanh(max_val), ±1, 0, float neighbours, ±1e4): value, d/dx and d/d(every parameter) of each output component from the "
         "Float instance of the reverse-mode model vs jax.grad; non-trivial = boundary input with non-default parameters; distinct = distinct "
         "(kernel, method, parameters, input)")
 TRUSTED = [
+    "py2ast reads the bodies of jax.scipy.stats.{norm,uniform,cauchy,laplace,expon,logistic,t}.logpdf and jax.nn.leaky_relu from the INSTALLED JAX package (regenerated every run); jax.scipy.special.logsumexp, jax.nn.log_softmax, jnp.logaddexp (custom_jvp), jax.nn.relu (custom_jvp), eqx.nn.MLP, Coupling/MaskedAutoregressive wiring, Chain's loop and the families' constructor wiring are hand-transcribed (Model/Ad.lean, AdVec.lean, AdNet.lean, AdFamilies.lean) and validated here",
+    "EF.lgamma / EF.digamma: log Gamma and its derivative are Mathlib's Real.Gamma and `deriv`; the model ASSUMES JAX's lgamma/digamma return finite floats for representable positive arguments (trusted primitive)",
     "Lean 4.33 kernel; Mathlib v4.33; axioms propext, Classical.choice, Quot.sound",
     "py2ast translator (tools/py2lean/py2ast.py, targets_ast.py): deep AST of the kernels, regenerated every run; validated here at Float",
     "Model/Ad.lean: cotangent rules per primitive transcribed from JAX (select sends a zero cotangent to the unselected branch; cotangent x partial uses IEEE multiplication) — a model of JAX autodiff, validated here against jax.grad",
     "EF (Proofs/EF.lean): IEEE special-value rules over exact reals — rounding, overflow (exp of large arguments) and signed zeros are outside the model and covered by this correspondence only",
 ]
-ASSUMPTIONS = ["flows inherit finiteness from their layers by composition of `Safe` expressions (theorem safe_vjp_fin); network conditioners (MLPs with relu) are piecewise linear with finite partials and are covered by the oracle only",
+ASSUMPTIONS = ["flows inherit finiteness from their layers by composition of `Safe` expressions (theorem safe_vjp_fin); conditioner MLPs, coupling and masked-autoregressive layers with the default affine transformer are proved (mlp/coupling/maf_grad_finite); spline-transformer couplings, the MAF inverse scan and whole factories are covered by the oracle only",
+               "adjoints are compared only where the real value is finite (the property's scope): at non-finite values the per-output model and JAX's shared backward pass may place NaN differently; values are compared everywhere by special-value class",
+               "planar leaky-relu theorems need 0 < negative_slope <= 1 (steeper slopes: recorded C02 finding); planar theorems need w != 0 (at w = 0 the real code returns NaN from get_act_scale, public log_prob = -inf)",
                "block_neural_autoregressive_flow / triangular_spline_flow cannot be constructed in this environment"]
 TOL = dict(rtol=1e-7, atol=1e-9)
 
@@ -62,7 +73,8 @@ def build(cls, ss, vs):
 
 
 def real_eval(cls, m, x, ss, vs, static=None):
-    """returns list per output component of (value, dx, dss, dvs) using jax.grad on the real method"""
+    """returns list per output component of (value, dx, dss, dvs) using jax.grad on the real method
+    (deliberately NOT jitted: inputs within an ulp of a spline's interval end make `max/min` ties depend on XLA's fusion)"""
     meth = fj.PYMETH.get(m, "derivative")
     ss_j = [jnp.asarray(s, float) for s in ss]
     vs_j = [jnp.asarray(v, float) for v in vs]
@@ -125,6 +137,360 @@ def cases(rng, tier):
 
 
 def corr(c, tier, rng):
+    corr_leaves(c, tier, rng)
+    corr_families(c, tier, rng)
+    corr_planar(c, tier, rng)
+    corr_mixture(c, tier, rng)
+    corr_nets(c, tier, rng)
+
+
+def cmp_pairs(c, name, pairs, **info):
+    ok = True
+    for q, a, b in pairs:
+        if not vlib.close(a, b, **TOL):
+            ok = False
+            c.mismatch(name, quantity=q, model=a, impl=b, model_class=vlib.fclass(a), impl_class=vlib.fclass(b), **info)
+    return ok
+
+
+# ------------------------------------------------------------------ distribution families (Gen/DistAst.lean + Model/AdFamilies.lean)
+import flowjax.distributions as D
+
+FAMILIES = ["Normal", "Uniform", "Gumbel", "Cauchy", "Laplace", "Logistic", "StudentT", "Exponential", "LogNormal",
+            "StandardNormal", "StandardUniform", "StandardGumbel", "StandardCauchy", "StandardLaplace", "StandardLogistic",
+            "StandardExponential", "StandardStudentT"]
+# which of the model's leaf slots (loc, raw scale, raw df) a family has, in the order `fam_build`'s getter returns them
+FAM_SLOTS = {"Normal": [0, 1], "Gumbel": [0, 1], "Cauchy": [0, 1], "Laplace": [0, 1], "Logistic": [0, 1], "LogNormal": [0, 1], "Uniform": [0, 1],
+             "StudentT": [0, 1, 2], "Exponential": [1], "StandardStudentT": [2]}
+
+
+def softplus(w):
+    return math.log1p(math.exp(w)) if w < 30 else w + math.log1p(math.exp(-w))
+
+
+def inv_softplus(s):
+    return math.log(math.expm1(s)) if s < 30 else s + math.log1p(-math.exp(-s))
+
+
+def fam_build(fam, loc, raw, rawdf):
+    """the real object with its trainable leaves set to the given values; returns (object, getter of the leaves)"""
+    if fam in ("Normal", "Gumbel", "Cauchy", "Laplace", "Logistic"):
+        d, get = getattr(D, fam)(0.0, 1.0), (lambda t: (t.bijection.loc, t.bijection.scale.arr))
+        return eqx.tree_at(get, d, (jnp.asarray(loc), jnp.asarray(raw))), get
+    if fam == "LogNormal":
+        d, get = D.LogNormal(0.0, 1.0), (lambda t: (t.bijection.bijections[0].loc, t.bijection.bijections[0].scale.arr))
+        return eqx.tree_at(get, d, (jnp.asarray(loc), jnp.asarray(raw))), get
+    if fam == "Uniform":
+        d, get = D.Uniform(0.0, 1.0), (lambda t: (t.bijection.loc, t.bijection.scale.arr))
+        return eqx.tree_at(get, d, (jnp.asarray(loc), jnp.asarray(raw))), get
+    if fam == "StudentT":
+        d, get = D.StudentT(2.0, 0.0, 1.0), (lambda t: (t.bijection.loc, t.bijection.scale.arr, t.base_dist.df.arr))
+        return eqx.tree_at(get, d, (jnp.asarray(loc), jnp.asarray(raw), jnp.asarray(rawdf))), get
+    if fam == "Exponential":
+        d, get = D.Exponential(1.0), (lambda t: (t.bijection.scale.arr,))
+        return eqx.tree_at(get, d, (jnp.asarray(raw),)), get
+    if fam == "StandardStudentT":
+        d, get = D._StandardStudentT(2.0), (lambda t: (t.df.arr,))
+        return eqx.tree_at(get, d, (jnp.asarray(rawdf),)), get
+    cls = {"StandardNormal": D.StandardNormal, "StandardUniform": D._StandardUniform, "StandardGumbel": D._StandardGumbel,
+           "StandardCauchy": D._StandardCauchy, "StandardLaplace": D._StandardLaplace, "StandardLogistic": D._StandardLogistic,
+           "StandardExponential": D._StandardExponential}[fam]
+    return cls(), (lambda t: ())
+
+
+_FAM_JIT = {}
+
+
+def fam_real(fam, mode, x, loc, raw, rawdf):
+    d, get = fam_build(fam, loc, raw, rawdf)
+    leaves = tuple(jnp.asarray(l, float) for l in get(d))
+    if (fam, mode) not in _FAM_JIT:
+        def f(x, leaves):
+            dd = eqx.tree_at(get, d, leaves) if leaves else d
+            return dd.log_prob(x) if mode == "pub" else unwrap(dd)._log_prob(x)
+        _FAM_JIT[(fam, mode)] = jax.jit(jax.value_and_grad(f, argnums=(0, 1)))
+    v, (gx, gl) = _FAM_JIT[(fam, mode)](jnp.asarray(x, float), leaves)
+    return float(v), float(gx), [float(l) for l in gl]
+
+
+def fam_inputs(fam, loc, raw, rng, n):
+    s = softplus(raw)
+    if fam.startswith("Standard"):
+        pts = [0.0, 1.0, -1.0, 0.5]
+        for v in (0.0, 1.0):
+            pts += fj.nextafter_set(v)
+    elif fam == "Exponential":
+        pts = [0.0, s, 1.0, -1.0] + fj.nextafter_set(0.0)
+    elif fam == "LogNormal":
+        pts = [0.0, 1.0, math.exp(loc) if abs(loc) < 300 else 1.0, -1.0, 1e-300]
+    else:
+        pts = [loc, loc + s, loc + s / 2, loc - s, 0.0, 1.0]
+        for v in (loc, loc + s):
+            pts += fj.nextafter_set(v)
+    pts += [1e3, -1e3, 1e10, -1e10, 1e100, -1e100, 1e300, -1e300]
+    pts += [loc + s * rng.uniform(-3, 3) for _ in range(n)]
+    # denormals are excluded from gradient-class comparisons (XLA flushes them)
+    return [float(v) for v in dict.fromkeys(pts) if v == 0.0 or abs(v) > 1e-300 or fam == "LogNormal" and v == 1e-300]
+
+
+def corr_families(c, tier, rng):
+    nrep = 2 if tier == "quick" else 8
+    psets = [(0.0, inv_softplus(1.0), inv_softplus(2.0)), (1.5, -2.0, 3.0), (-3.0, 4.0, -1.0), (0.25, 40.0, 50.0), (1e3, -20.0, -20.0)]
+    psets += [(rng.uniform(-5, 5), rng.uniform(-6, 6), rng.uniform(-6, 6)) for _ in range(nrep)]
+    lines, metas = [], []
+    for fam in FAMILIES:
+        for k, (loc, raw, rawdf) in enumerate(psets):
+            if fam.startswith("Standard") and fam != "StandardStudentT" and k > 0:
+                continue
+            for x in fam_inputs(fam, loc, raw, rng, 2 if tier == "quick" else 6):
+                for mode in ("priv", "pub"):
+                    lines.append(f"adfam {fam} {mode} {f2b(x)} {f2b(loc)} {f2b(raw)} {f2b(rawdf)}")
+                    metas.append((fam, mode, x, loc, raw, rawdf, k > 0))
+        c.count("family:" + fam)
+    outs = vlib.run_model(lines)
+    for i, (line, got, (fam, mode, x, loc, raw, rawdf, nd)) in enumerate(zip(lines, outs, metas)):
+        if got.startswith("ERR"):
+            c.mismatch("family-ast-vs-jax.grad", op=line, model=got)
+            continue
+        t = [b2f(u) for u in got.split()]
+        if fam == "Uniform" and abs((x - loc) / softplus(raw) - 1.0) < 1e-14 and x != loc:
+            # x within a few ulps of loc + softplus(raw): which side of the closed support it falls on depends on the last bit of
+            # softplus (libm here, XLA there) — the recorded C05 finding `Uniform.log_prob|x == maxval`; z == 1 exactly is proved
+            c.count("skipped:ulp-neighbour of Uniform's upper end")
+            continue
+        try:
+            v, gx, gl = fam_real(fam, mode, x, loc, raw, rawdf)
+        except Exception as ex:
+            c.mismatch("family-ast-vs-jax.grad", op=line, impl="EXC:" + repr(ex)[:200])
+            continue
+        pairs = [("value", t[0], v)]
+        if math.isfinite(v):
+            pairs += [("dx", t[1], gx)] + [(f"dleaf{k}", t[2 + k], g) for k, g in zip(FAM_SLOTS.get(fam, []), gl)]
+            c.count("family:finite-value (adjoints compared)")
+        else:
+            c.count("family:non-finite value (value class compared only)")
+        cmp_pairs(c, "family-ast-vs-jax.grad", pairs, family=fam, mode=mode, x=x, loc=loc, raw_scale=raw, raw_df=rawdf)
+        c.case(("family", fam, mode, x, loc, raw, rawdf), nd or not fam.startswith("Standard"), sample={"op": line, "model": got} if i % 400 == 0 else None)
+
+
+# ------------------------------------------------------------------ planar (Gen/VecAst.lean)
+from flowjax.bijections.planar import _UnconditionalPlanar
+
+
+_PL_JIT = {}
+
+
+def planar_real(act, m, x, w, u, b, slope):
+    key = (act, m, len(w), slope)
+    if key not in _PL_JIT:
+        def f(x, w, u, b):
+            p = _UnconditionalPlanar(w, u, b, negative_slope=(slope if act == "lrelu" else None))
+            y, ld = p.transform_and_log_det(x) if m == "tl" else p.inverse_and_log_det(x)
+            return jnp.concatenate([y, ld[None]])
+        _PL_JIT[key] = (jax.jit(f), jax.jit(jax.jacrev(f, argnums=(0, 1, 2, 3))))
+    f, jf = _PL_JIT[key]
+    args = (jnp.asarray(x, float), jnp.asarray(w, float), jnp.asarray(u, float), jnp.asarray(b, float))
+    return np.asarray(f(*args)), [np.asarray(j) for j in jf(*args)]
+
+
+def planar_cases(rng, tier):
+    nrep = 2 if tier == "quick" else 8
+    for d in (1, 2, 3, 5):
+        for rep in range(nrep):
+            w = [rng.uniform(-2, 2) for _ in range(d)]
+            u = [rng.uniform(-3, 3) * rng.choice([1, 10]) for _ in range(d)]  # far from the 0.01 N(0,1) initialisation
+            if sum(a * c for a, c in zip(w, u)) < -3:
+                # w.u << 0 makes 1 + w.u_hat = log(1 + softplus(w.u)) cancel (and, below -36.7, absorb: the recorded C11 finding
+                # `planar.get_act_scale|float-absorption`); there the comparison measures rounding, not the rules
+                u = [-c for c in u]
+            b = rng.uniform(-1, 1)
+            for x in ([rng.uniform(-3, 3) for _ in range(d)], [0.0] * d, [1e3] * d, [-1e6] * d, [1e150] * d):
+                yield d, x, w, u, b, False
+        # pre-activation EXACTLY zero with dyadic data (every partial sum is exact in any order): the leaky-relu kink
+        w = [rng.choice([-2.0, -1.0, -0.5, 0.5, 1.0, 2.0]) for _ in range(d)]
+        x = [rng.choice([-1.5, -0.5, 0.25, 1.0, 2.0]) for _ in range(d)]
+        b = -sum(a * c for a, c in zip(w, x))
+        yield d, x, w, [rng.choice([-3.0, 0.5, 4.0]) for _ in range(d)], b, True
+    yield 2, [0.3, 0.2], [0.0, 0.0], [0.5, -0.5], 0.1, True  # w = 0: get_act_scale divides by 0
+
+
+def corr_planar(c, tier, rng):
+    cases = []
+    for d, x, w, u, b, tie in planar_cases(rng, tier):
+        cases.append(("tanh", "tl", x, w, u, b, 0.0, tie))
+        for slope in (0.1, 0.5, 1.0):
+            cases.append(("lrelu", "tl", x, w, u, b, slope, tie))
+            cases.append(("lrelu", "il", x, w, u, b, slope, tie))
+    lines = [f"adplanar {act} {m} {fs2b(x)} {fs2b(w)} {fs2b(u)} {f2b(b)} {f2b(slope)}" for act, m, x, w, u, b, slope, _ in cases]
+    outs = vlib.run_model(lines)
+    for i, (case, line, got) in enumerate(zip(cases, lines, outs)):
+        act, m, x, w, u, b, slope, tie = case
+        if got.startswith("ERR"):
+            c.mismatch("planar-ast-vs-jax.jacrev", op=line[:300], model=got)
+            continue
+        val, (jx, jw, ju, jb) = planar_real(act, m, x, w, u, b, slope)
+        allfinite = bool(np.all(np.isfinite(val)))
+        c.count("planar:" + ("all outputs finite (Jacobians compared)" if allfinite else "non-finite output (value classes compared only)"))
+        for k, part in enumerate(got.split(" | ")):
+            t = part.split()
+            pairs = [("value", b2f(t[0]), float(val[k]))]
+            if allfinite:
+                mds, mdw, mdu, mdx = b2fs(t[1]), b2fs(t[2]), b2fs(t[3]), b2fs(t[4])
+                pairs += [("dbias", mds[0], float(jb[k]))]
+                pairs += [(f"dw{j}", mdw[j], float(jw[k][j])) for j in range(len(w))]
+                pairs += [(f"du{j}", mdu[j], float(ju[k][j])) for j in range(len(w))]
+                pairs += [(f"dx{j}", mdx[j], float(jx[k][j])) for j in range(len(w))]
+            cmp_pairs(c, "planar-ast-vs-jax.jacrev", pairs, activation=act, method=m, output=k, x=x, w=w, u=u, b=b, slope=slope)
+        c.case(("planar", act, m, tuple(x), tuple(w), tuple(u), b, slope), True, sample={"op": line[:200], "model": got[:200]} if i % 100 == 0 else None)
+
+
+# ------------------------------------------------------------------ mixtures (Gen/VecAst.lean + Vec.logsumexp / Vec.logSoftmax)
+_MIX_JIT = []
+
+
+def mix_real(ws, lps):
+    from jax.nn import log_softmax
+    from jax.scipy.special import logsumexp
+    if not _MIX_JIT:
+        _MIX_JIT.append(jax.jit(jax.value_and_grad(lambda w, l: logsumexp(l + log_softmax(w)), argnums=(0, 1))))
+    v, (gw, gl) = _MIX_JIT[0](jnp.asarray(ws, float), jnp.asarray(lps, float))
+    return float(v), np.asarray(gw).tolist(), np.asarray(gl).tolist()
+
+
+def corr_mixture(c, tier, rng):
+    inf, nan = math.inf, math.nan
+    cases = []
+    for k in (1, 2, 3, 5):
+        for _ in range(3 if tier == "quick" else 12):
+            ws = [rng.uniform(-3, 3) * rng.choice([1, 30]) for _ in range(k)]
+            for lps in ([rng.uniform(-5, 2) for _ in range(k)], [0.0] * k, [-1e3] * k, [-1e300] * k, [1e3] + [-1e3] * (k - 1), [2.0] * k,
+                        [-inf] * k, [-inf] + [0.5] * (k - 1), [inf] + [0.0] * (k - 1), [nan] + [0.0] * (k - 1)):
+                cases.append((ws, lps))
+        cases.append(([700.0] + [-700.0] * (k - 1), [0.1] * k))
+        cases.append(([5.0] * k, [rng.choice([-1.0, 0.25])] * k))  # tied maxima in log_softmax and in logsumexp
+    lines = [f"admix {fs2b(w)} {fs2b(l)}" for w, l in cases]
+    outs = vlib.run_model(lines)
+    for i, ((w, l), line, got) in enumerate(zip(cases, lines, outs)):
+        if got.startswith("ERR"):
+            c.mismatch("mixture-ast-vs-jax.grad", op=line[:300], model=got)
+            continue
+        t = got.split()
+        v, gw, gl = mix_real(w, l)
+        pairs = [("value", b2f(t[0]), v)]
+        if math.isfinite(v):
+            pairs += [(f"dw{j}", a, b) for j, (a, b) in enumerate(zip(b2fs(t[2]), gw))] + [(f"dlp{j}", a, b) for j, (a, b) in enumerate(zip(b2fs(t[3]), gl))]
+        c.count("mixture:" + ("finite" if math.isfinite(v) else vlib.fclass(v)))
+        cmp_pairs(c, "mixture-ast-vs-jax.grad", pairs, weights=w, log_probs=l)
+        c.case(("mixture", tuple(w), tuple(map(str, l))), True, sample={"op": line[:200], "model": got[:200]} if i % 60 == 0 else None)
+    # the wiring `logsumexp(log_probs + log_softmax(stored))` against the real VmapMixture object (public and private value)
+    for _ in range(3 if tier == "quick" else 10):
+        k = rng.choice([1, 2, 4])
+        locs = [rng.uniform(-3, 3) for _ in range(k)]
+        weights = [math.exp(rng.uniform(-3, 3)) for _ in range(k)]
+        mix = D.VmapMixture(eqx.filter_vmap(D.Normal)(jnp.asarray(locs)), jnp.asarray(weights))
+        for x in (0.0, locs[0], 1e3, -1e10):
+            comp = [float(D.Normal(lc).log_prob(x)) for lc in locs]
+            got = vlib.run_model([f"admix {fs2b([math.log(wt) for wt in weights])} {fs2b(comp)}"])[0]
+            real_v = float(unwrap(mix)._log_prob(jnp.asarray(x)))
+            cmp_pairs(c, "mixture-object-vs-ast", [("value", b2f(got.split()[0]), real_v)], x=x, locs=locs, weights=weights)
+            c.case(("mixture-object", x, tuple(locs), tuple(weights)), True)
+
+
+# ------------------------------------------------------------------ conditioner networks, coupling, MAF (Model/AdNet.lean)
+from flowjax.flows import _affine_with_min_scale
+
+
+def net_perturb(tree, rng, scale):
+    leaves, td = jax.tree_util.tree_flatten(tree)
+    new = [jnp.asarray(np.asarray(l) + scale * np.array([rng.gauss(0, 1) for _ in range(np.asarray(l).size)]).reshape(np.asarray(l).shape))
+           if eqx.is_inexact_array(l) else l for l in leaves]
+    return jax.tree_util.tree_unflatten(td, new)
+
+
+def net_mlp(b):
+    return b.conditioner if isinstance(b, B.Coupling) else b.masked_autoregressive_mlp
+
+
+def net_layers(b):
+    out = []
+    for lin in net_mlp(b).layers:
+        w = lin.weight
+        if hasattr(w, "cond"):  # wrappers.Where(mask, w, 0)
+            out.append((np.asarray(w.if_true), np.asarray(w.cond), np.asarray(lin.bias)))
+        else:
+            out.append((np.asarray(w), None, np.asarray(lin.bias)))
+    return out
+
+
+def net_set(b, ws, bs):
+    def get(t):
+        ls = net_mlp(t).layers
+        return tuple((l.weight.if_true if hasattr(l.weight, "cond") else l.weight) for l in ls) + tuple(l.bias for l in ls)
+    return eqx.tree_at(get, b, tuple(jnp.asarray(a) for a in ws) + tuple(jnp.asarray(a) for a in bs))
+
+
+_NET_JIT = {}
+
+
+def net_real(b, kind, x, tag):
+    arrs = net_layers(b)
+    if (tag, kind) not in _NET_JIT:
+        def f(x, ws, bs):
+            bb = net_set(b, ws, bs)
+            y, ld = bb.inverse_and_log_det(x) if kind.endswith("_i") else bb.transform_and_log_det(x)
+            return jnp.concatenate([y, ld[None]])
+        _NET_JIT[(tag, kind)] = (jax.jit(f), jax.jit(jax.jacrev(f, argnums=(0, 1, 2))))
+    f, jf = _NET_JIT[(tag, kind)]
+    args = (jnp.asarray(x, float), [jnp.asarray(a[0]) for a in arrs], [jnp.asarray(a[2]) for a in arrs])
+    return np.asarray(f(*args)), jf(*args)
+
+
+def net_line(b, kind, act, u, x, ms, il, ir):
+    parts = []
+    for w, m, bi in net_layers(b):
+        parts += [fs2b(w.reshape(-1)), fs2b(m.reshape(-1).astype(float)) if m is not None else "-", fs2b(bi)]
+    return f"adnet {kind} {act} {u} {fs2b(x)} {f2b(ms)} {f2b(il)} {f2b(ir)} " + " ".join(parts)
+
+
+def corr_nets(c, tier, rng):
+    ms = 1e-2
+    il, ir = 0.0, float(np.asarray(_affine_with_min_scale(ms).scale.arr))
+    shapes = [(2, 1, 3, 1), (3, 1, 4, 2), (4, 2, 5, 1), (3, 2, 2, 0)] if tier == "quick" else [(2, 1, 3, 1), (3, 1, 4, 2), (4, 2, 5, 1), (3, 2, 2, 0), (5, 2, 6, 2), (2, 1, 1, 3)]
+    jobs = []
+    for dim, u, width, depth in shapes:
+        for act, actf in (("relu", jax.nn.relu), ("tanh", jnp.tanh)):
+            cp = net_perturb(B.Coupling(jr.key(rng.randrange(1000)), transformer=_affine_with_min_scale(ms), untransformed_dim=u, dim=dim,
+                                        nn_width=width, nn_depth=depth, nn_activation=actf), rng, rng.choice([0.3, 1.5]))
+            maf = net_perturb(B.MaskedAutoregressive(jr.key(rng.randrange(1000)), transformer=_affine_with_min_scale(ms), dim=dim,
+                                                     nn_width=max(width, dim), nn_depth=max(depth, 1), nn_activation=actf), rng, rng.choice([0.3, 1.5]))
+            # all biases 0 and input 0: every relu pre-activation is EXACTLY 0 (jax.nn.relu's rule gives derivative 0 there)
+            cp0 = net_set(cp, [a[0] for a in net_layers(cp)], [np.zeros_like(a[2]) for a in net_layers(cp)])
+            tag = (dim, u, width, depth, act)
+            for x in ([rng.uniform(-2, 2) for _ in range(dim)], [0.0] * dim, [1e3] * dim, [-1e6] * dim, [1.0] + [0.0] * (dim - 1)):
+                jobs += [(cp, "coupling_t", act, u, x, tag), (cp, "coupling_i", act, u, x, tag), (maf, "maf_t", act, 0, x, tag)]
+            jobs += [(cp0, "coupling_t", act, u, [0.0] * dim, tag), (cp0, "coupling_i", act, u, [0.0] * dim, tag)]
+    lines = [net_line(b, kind, act, u, x, ms, il, ir) for b, kind, act, u, x, _ in jobs]
+    outs = vlib.run_model(lines)
+    for i, ((b, kind, act, u, x, tag), line, got) in enumerate(zip(jobs, lines, outs)):
+        if got.startswith("ERR"):
+            c.mismatch("network-ast-vs-jax.jacrev", op=line[:300], model=got)
+            continue
+        val, (jx, jw, jb) = net_real(b, kind, x, tag)
+        allfinite = bool(np.all(np.isfinite(val)))
+        c.count("network:" + kind + ":" + act)
+        for k, part in enumerate(got.split(" | ")):
+            t = part.split()
+            pairs = [("value", b2f(t[0]), float(val[k]))]
+            if allfinite:
+                pairs += [(f"dx{j}", a, float(jx[k][j])) for j, a in enumerate(b2fs(t[2]))]
+                for l in range(len(jw)):
+                    pairs += [(f"dW{l}[{j}]", a, float(np.asarray(jw[l][k]).reshape(-1)[j])) for j, a in enumerate(b2fs(t[3 + 2 * l]))]
+                    pairs += [(f"db{l}[{j}]", a, float(np.asarray(jb[l][k])[j])) for j, a in enumerate(b2fs(t[4 + 2 * l]))]
+            cmp_pairs(c, "network-ast-vs-jax.jacrev", pairs, kind=kind, activation=act, output=k, x=x)
+        c.case(("network", kind, act, tuple(x), i), True, sample={"op": line[:200], "model": got[:200]} if i % 80 == 0 else None)
+
+
+def corr_leaves(c, tier, rng):
     lines, metas = [], []
     for cls, methods, xs, ss, vs, static, diff_ss, nd in cases(rng, tier):
         xs = list(dict.fromkeys(float(v) for v in xs))[: (18 if tier == "quick" else 60)]
@@ -170,17 +536,21 @@ def corr(c, tier, rng):
 def grads_finite_violations(dist, desc, xs, cond=None):
     out = []
     params, static = eqx.partition(dist, eqx.is_inexact_array)
+
+    @jax.jit
+    def both(p, v):
+        f = lambda p, v: eqx.combine(p, static).log_prob(v, cond)
+        lp, (gp, gx) = jax.value_and_grad(f, argnums=(0, 1))(p, v)
+        return lp, gx, gp
     for x in xs:
         xj = jnp.asarray(x, float)
-        lp = dist.log_prob(xj, cond)
+        lp, gx, gp = both(params, xj)
         lpv = float(lp)
         if math.isnan(lpv):
             out.append(dict(key=f"{desc}|log_prob nan|x={np.asarray(x).tolist()!r}", desc=desc, x=np.asarray(x).tolist(), law="log_prob is never NaN"))
             continue
         if not math.isfinite(lpv):
             continue
-        gx = jax.grad(lambda v: dist.log_prob(v, cond))(xj)
-        gp = jax.grad(lambda p: eqx.combine(p, static).log_prob(xj, cond))(params)
         leaves = [np.asarray(l) for l in jax.tree_util.tree_leaves(gp)]
         if not np.all(np.isfinite(np.asarray(gx))):
             out.append(dict(key=f"{desc}|d/dx|x={np.asarray(x).tolist()!r}", desc=desc, x=np.asarray(x).tolist(), law="finite log_prob => finite d/dx", got=np.asarray(gx).tolist()))
@@ -201,8 +571,77 @@ def leaf_dists(rng):
         yield "Exp", B.Exp(), [0.0, 1.0, -1.0, 30.0]
 
 
+def family_dists(rng):
+    """real family objects with trainable leaves far from their initial values + inputs on / next to the support ends, at loc,
+    and at magnitudes 1e3..1e300"""
+    big = [1e3, -1e3, 1e10, -1e10, 1e100, -1e100, 1e300, -1e300]
+    for _ in range(3):
+        loc = rng.choice([0.0, rng.uniform(-5, 5), 1e3])
+        raw = rng.choice([inv_softplus(1.0), rng.uniform(-6, 6), 40.0, -20.0])
+        rawdf = rng.choice([inv_softplus(2.0), rng.uniform(-6, 6), 50.0, -20.0])
+        s = softplus(raw)
+        for fam in FAMILIES:
+            d, _ = fam_build(fam, loc, raw, rawdf)
+            if fam.startswith("Standard"):
+                pts = [0.0, 1.0, -1.0, 0.5] + fj.nextafter_set(0.0) + fj.nextafter_set(1.0)
+            else:
+                pts = [loc, loc + s, loc + s / 2, loc - s, 0.0, 1.0] + fj.nextafter_set(loc) + fj.nextafter_set(loc + s)
+            yield f"{fam}(loc={loc!r},raw_scale={raw!r},raw_df={rawdf!r})", d, pts + big + [loc + s * rng.uniform(-3, 3) for _ in range(3)]
+    # multi-dimensional families: one bad element must not poison the others' gradients
+    yield "Normal((3,))", D.Normal(jnp.array([0.0, 1e3, -2.0]), jnp.array([1.0, 1e-3, 50.0])), [[0.0, 1e3, -2.0], [1e10, 0.0, 0.0], [0.0, 0.0, 1e300]]
+    yield "Uniform((2,))", D.Uniform(jnp.array([0.0, -1.0]), jnp.array([1.0, 3.0])), [[0.0, -1.0], [1.0, 3.0], [0.5, 5.0], [0.5, 0.5]]
+    yield "Laplace((2,))", D.Laplace(jnp.array([0.5, -1.0]), jnp.array([1.0, 3.0])), [[0.5, -1.0], [0.5, 0.0], [1e300, -1.0]]
+    yield "StudentT((2,))", D.StudentT(jnp.array([0.5, 30.0]), jnp.array([0.5, -1.0]), jnp.array([1.0, 3.0])), [[0.5, -1.0], [1e10, 0.0], [1e160, -1.0]]
+
+
+def mixture_dists(rng):
+    for _ in range(3):
+        k = rng.choice([1, 2, 4])
+        locs = jnp.asarray([rng.uniform(-4, 4) for _ in range(k)])
+        weights = jnp.asarray([math.exp(rng.uniform(-4, 4)) for _ in range(k)])
+        yield f"VmapMixture(Normal x{k})", D.VmapMixture(eqx.filter_vmap(D.Normal)(locs), weights), [0.0, float(locs[0]), 1e3, -1e3, 1e10, 1e154, 1e300]
+        yield f"VmapMixture(Laplace x{k})", D.VmapMixture(eqx.filter_vmap(D.Laplace)(locs), weights), [0.0, float(locs[0]), 1e3, -1e10, 1e300]
+        los = jnp.asarray([float(j) * 2 for j in range(k)])
+        yield (f"VmapMixture(Uniform x{k})", D.VmapMixture(eqx.filter_vmap(D.Uniform)(los, los + 1.0), weights),
+               [0.0, 0.5, 1.0, 1.5, 2.0, 2.5, -1.0, 1e10])
+        yield (f"VmapMixture(Exponential x{k})", D.VmapMixture(eqx.filter_vmap(D.Exponential)(jnp.asarray([rng.uniform(0.1, 5) for _ in range(k)])), weights),
+               [0.0, 1.0, -1.0, 1e3, 1e300])
+    # weights very far apart (log_softmax at large magnitude)
+    yield "VmapMixture(Normal x2, weights 1e-300/1e300)", D.VmapMixture(eqx.filter_vmap(D.Normal)(jnp.asarray([0.0, 3.0])), jnp.asarray([1e-300, 1e300])), [0.0, 3.0, 1e3]
+
+
+def planar_dists(rng):
+    from flowjax.bijections.planar import Planar
+    for d in (1, 2, 4):
+        for slope in (None, 0.1, 1.0):
+            for scale in (0.01, 1.0, 5.0):
+                params = jnp.asarray([rng.gauss(0, 1) * scale for _ in range(2 * d + 1)])
+                if float(jnp.dot(params[:d], params[d:2 * d])) < -30:
+                    continue  # recorded C11 finding (float absorption)
+                p = eqx.tree_at(lambda t: t.params, Planar(jr.key(0), dim=d, negative_slope=slope), params)
+                pts = [[0.0] * d, [1.0] * d, [-3.0] * d, [1e3] * d, [-1e6] * d, [1e100] * d]
+                w, b = np.asarray(params[:d]), float(params[-1])
+                pts.append((-b * w / float(w @ w)).tolist())  # pre-activation (almost) exactly zero
+                orients = [("fwd", p)] if slope is None else [("fwd", p), ("inv", B.Invert(p))]
+                for orient, bij in orients:
+                    # a flow's log_prob uses inverse_and_log_det: only the leaky-relu planar is analytically invertible
+                    if orient == "fwd" and slope is None:
+                        bij = B.Invert(p)
+                    elif orient == "inv":
+                        bij = p
+                    yield f"Planar(dim={d},slope={slope},scale={scale})|{orient}", Transformed(StandardNormal((d,)), bij), pts
+
+
 def search(hints, tier, rng):
     wit = []
+    for gen in (family_dists, mixture_dists, planar_dists):
+        for name, dist, xs in gen(rng):
+            try:
+                wit += grads_finite_violations(dist, name, xs)
+            except Exception as ex:  # a raising log_prob / grad is a violation of "a number or minus infinity"
+                wit.append(dict(key=f"{name}|raises|{type(ex).__name__}", desc=name, law="log_prob and its gradients are defined for every real input", error=repr(ex)[:300]))
+            if len(wit) >= 5:
+                return wit[:5]
     for name, b, xs in leaf_dists(rng):
         for orient, bij in (("fwd", b), ("inv", B.Invert(b))):
             wit += grads_finite_violations(Transformed(StandardNormal(), bij), f"{name}|{orient}", xs)
